@@ -58,8 +58,9 @@ def outcomes(logic, func, frame=None, boolean=True, depth=2):
                         break
                     alts = [a + [Lit('empty(%s)' % it, True)] for a in alts]
                 else:
-                    vs = [canon.c(n, e.frame) for n in ast.walk(e.node.target)
-                          if isinstance(n, ast.Name)]
+                    from .norm import SINGLETONS as _SG
+                    vs = [v for v in (canon.c(n, e.frame) for n in ast.walk(e.node.target)
+                                      if isinstance(n, ast.Name)) if v not in _SG]
                     loops.append((e.node, vs, ('<forms>', forms) if forms else (
                         it if not sing else ('<each>', sorted(sing))), [len(a) for a in alts]))
             elif e.kind == 'back' and loops and loops[-1][0] is e.node:
